@@ -72,3 +72,16 @@ Proof.
   destruct (tr_err (finalising_traffic_routing (tr_ctx o) n g)); [right; left; reflexivity|].
   destruct (tr_ok (finalising_traffic_routing (tr_ctx o) n g)); [left; reflexivity|right; right; reflexivity].
 Qed.
+
+(* C07 for the TrafficRouting controller: the controller watches only its own objects, so a reconcile that leaves the object in
+   the Finalizing phase -- clean-up not finished -- without an error must have asked for a requeue; otherwise nothing would
+   ever reconcile it again (and a Rollout that references it waits in Initializing for ever) *)
+Theorem tr_finalizing_never_goes_quiet o n g :
+  to_deleting o = false -> ro_phase (tr_reconcile o n g) = TpFinalizing -> ro_err (tr_reconcile o n g) = false ->
+  ro_requeue (tr_reconcile o n g) = true \/ to_phase o <> TpFinalizing.
+Proof.
+  intros Hd. destruct (to_phase o) eqn:Ep; try (intros; right; discriminate).
+  unfold tr_reconcile. rewrite Hd, Ep. cbn iota.
+  destruct (finalising_traffic_routing (tr_ctx o) n g) as [ok err ws gs t]. cbn [tr_err tr_ok tr_writes tr_graces].
+  destruct err; [cbn; discriminate|]. destruct ok; cbn; [discriminate|]. intros _ _. left. reflexivity.
+Qed.
